@@ -467,7 +467,7 @@ func init() {
 			return judgeLayout(c, s.BlackBox(), &lc)
 		},
 		Run: func(c *CheckCtx) {
-			c.rule = "pairs (program, layout edit): blank line / comment-only line / two such lines / a three-line =begin ... =end block comment inserted at a statement boundary (generated programs: every boundary the AST offers, at any nesting depth, including before else/end; corpus programs: boundaries from a conservative line scanner), final newline removed or doubled, a string literal widened by a real newline or by a backslash-newline continuation; adjacency family: 38 complete statements x 28 following statements whose first token could continue an expression (if/unless/while/until, `[`, `(`, `!`, literals) plus 16 body headers (in/when/else/rescue/do/def ...) x the same 28, at top level and inside a method, the line inserted exactly between the two; modes plain and -i. Oracle: out(edited) == out(original) with rows at or after the edit shifted by the number of added lines. distinct_nontrivial = distinct (edit, mode, line, program) pairs whose original run printed at least one located record"
+			c.rule = "pairs (program, layout edit): blank line / comment-only line / two such lines / a three-line =begin ... =end block comment inserted at a statement boundary (generated programs: every boundary the AST offers, at any nesting depth, including before else/end; corpus programs: boundaries from a conservative line scanner), final newline removed or doubled, a string literal widened by a real newline or by a backslash-newline continuation; adjacency family: 52 complete statements (also `x rescue nil`, and/or/not, lambdas, %w, &., ||=) x 28 following statements whose first token could continue an expression (if/unless/while/until, `[`, `(`, `!`, literals) plus 16 body headers (in/when/else/rescue/do/def ...) x the same 28, at top level and inside a method, and 16 x 11 pairs inside a class body (attr_*, include, visibility keywords, definitions of every form followed by if/unless/while/blocks/definitions), the line inserted exactly between the two; modes plain and -i. Oracle: out(edited) == out(original) with rows at or after the edit shifted by the number of added lines. distinct_nontrivial = distinct (edit, mode, line, program) pairs whose original run printed at least one located record"
 			c.assumptions = []string{"pairs in which either run crashes or hangs are skipped (C01/C02)", "for a widened string literal, records located on the literal's own line may stay or move"}
 			items := Corpus()
 			var jobs []*layoutCase
@@ -552,6 +552,23 @@ func init() {
 				src, b, ctx := buildAdjacency(ai, hi, bi, top)
 				ed := Pick(r, edits)
 				jobs = append(jobs, &layoutCase{Source: src, Edit: ed, Text: textFor(ed), Line: b, Mode: Pick(r, modes), Origin: "adjacency", Context: ctx})
+			}
+			adjClass := func(ai, bi int) {
+				src, b, ctx := buildClassAdjacency(ai, bi)
+				ed := Pick(r, edits)
+				jobs = append(jobs, &layoutCase{Source: src, Edit: ed, Text: textFor(ed), Line: b, Mode: Pick(r, modes), Origin: "adjacency", Context: ctx})
+			}
+			if c.Quick() {
+				for k := 0; k < 80; k++ {
+					adjClass(r.Intn(len(adjClassFirst)), r.Intn(len(adjClassSecond)))
+				}
+			} else {
+				for ai := range adjClassFirst {
+					for bi := range adjClassSecond {
+						adjClass(ai, bi)
+						adjClass(ai, bi)
+					}
+				}
 			}
 			if c.Quick() {
 				for k := 0; k < 300; k++ {
